@@ -187,6 +187,21 @@ example : readU64 [45, 49] = .err := by decide        -- "-1"
 example : readU64 [49, 50, 97] = .err := by decide    -- "12a"
 example : readU64 [] = .err := by decide              -- ""
 
+/-- **Records before the damage are unchanged** (BED): whatever follows a line break — further records, garbage,
+a truncated line — never changes what is read from the bytes before it. -/
+theorem earlier_records_unchanged_bed (a b : List Nat) :
+    (readBed (a ++ LF :: b)).take (readBed a).length = readBed a := by
+  unfold readBed
+  rw [rows_append]
+  exact withCount_prefix parseBedFields (rows a) (rows b)
+
+/-- **Records before the damage are unchanged** (GFF/GTF). -/
+theorem earlier_records_unchanged_gff (d : Dialect) (a b : List Nat) :
+    (readGff d (a ++ LF :: b)).take (readGff d a).length = readGff d a := by
+  unfold readGff
+  rw [rows_append]
+  exact withCount_prefix (parseGffFields d) (rows a) (rows b)
+
 -- non-vacuity of the hypotheses: a GFF3 record with a multi-valued attribute and `.` placeholders is in the domain
 example : GffOk gff3 ⟨[97], [98], [99], 1, 20, [46], [43], none, [([84], [[120], [121]]), ([73], [[122]])]⟩ := by
   refine ⟨by decide, by decide, by decide, by decide, by decide, by decide, by decide, by decide, by simp, ?_⟩
